@@ -52,7 +52,7 @@ Shape2(s, a, b) ==
       [] s = 7 -> D(<<"y", "x">>, <<a, b>>)
       [] s = 8 -> Dc("odict", <<"z", "v", "u">>, <<a, Dc("odict", <<"w", "k">>, <<b, Leaf(2)>>), Leaf(1)>>)
       [] s = 9 -> L(<<Dc("Dict", <<"y", "x">>, <<Leaf(3), a>>), D(<<"zz", "a b", "m">>, <<Leaf(0), b, Leaf(4)>>)>>)
-Shapes3 == IF Light THEN {1, 2, 4} ELSE 1..5
+Shapes3 == IF Light THEN {1, 2} ELSE 1..5
 Shape3(s, a, b, c) ==
     CASE s = 1 -> L(<<a, b, c>>)
       [] s = 2 -> D(<<"x", "y">>, <<a, L(<<b, D(<<"z">>, <<c>>)>>)>>)
